@@ -85,6 +85,24 @@ def float_literals(rep, tier):
             checked += 1
             if got != want:
                 rep.violation(ident + ":constant", {"source": text, "source_literal": l, "go_literal": g, "denotes": repr(got), "should_denote": repr(want)})
+    # out-of-range float literals are rejected (the lexer has no exponent form: they are written with all their digits)
+    big = {"float32": ["1" + "0" * 39 + ".0", "340282360000000000000000000000000000000.0", "9" * 45 + ".5"], "float64": ["1" + "0" * 309 + ".0", "2" + "0" * 400 + ".25"]}
+    oreqs = []
+    for ty, lits_ in big.items():
+        suf = "f32" if ty == "float32" else "f64"
+        for k_, l in enumerate(lits_):
+            for form, stmt in (("suffix", f"let a = {l}{suf};"), ("annotated", f"let a: {ty} = {l};"), ("argument", f"let a = pass({l}{suf});"), ("negated", f"let a = -{l}{suf};")):
+                oreqs.append({"id": f"{ty}:{form}:{k_}", "dir": d,
+                              "text": f"fn pass(x: {ty}) -> {ty} {{ x }}\nfn main() {{\n    {stmt}\n    let _ = string_println({ty}_to_string(a));\n    ()\n}}\n"})
+    out_rejected = 0
+    for q, r in zip(oreqs, gv_parallel("compile", oreqs)):
+        if r["verdict"] == "ok":
+            rep.violation(f"c10:float-literal-out-of-range:accepted:{q['id'].rsplit(':', 1)[0]}", {"source": q["text"][:300], "go": r["go"][r["go"].find("func main0"):][:300]})
+        elif r["verdict"] in ("panic", "timeout"):
+            rep.violation(f"c10:float-literal-out-of-range:{r['verdict']}:{q['id'].rsplit(':', 1)[0]}", {"source": q["text"][:300], "at": r.get("at")})
+        else:
+            out_rejected += 1
+    rep.coverage["float_literals_out_of_range_rejected"] = out_rejected
     rep.coverage["float_literal_denotations_checked"] = checked
     rep.coverage["float_literal_programs_whose_go_shows_no_constant"] = unread
     if checked < 100:
